@@ -33,7 +33,9 @@ MANIFEST = {
                   "(C03_mdat_enc_agree, C03_stsd_enc_agree, C03_vse_enc_agree: the hypothesis `agree` is discharged for them; TrunBox and "
                   "SencBox Encode call their own EncodeSW). The delegation pattern of the remaining reader-path decoders (read the body, run the SR "
                   "decoder on a private reader) is sound for EVERY SR decoder that is a decision tree of position-relative reader operations "
-                  "(C03_delegate_sound over the C04 FixedSliceReader model; which Go decoders are such programs is not established by the check). "
+                  "(C03_delegate_sound, C03_prog_pair_agree over the C04 FixedSliceReader model); instantiated for mfhd, tfdt (both written twice in "
+                  "Go) and tfhd (C03_fragment_progs_local, C03_mfhd_pair_agree), whose programs are tied to the Go code by the P lines; for the "
+                  "other delegating decoders, that they are such programs is not established by the check. "
                   "The key sets of decoders and decodersSR "
                   "are equal (C03_registry, regenerated from the hook on every run). "
                   "EXPLORED only: the remaining ~125 leaf decoder pairs (most reader-path decoders read the body and delegate to the SR "
@@ -121,7 +123,7 @@ def run(ctx):
     rc, cases, e = harness(exe, ["corr", "-seed", ctx.seed, "-n", n, "-exh", exh], 3000)
     if rc != 0:
         raise common.CheckError("harness corr failed rc=%s: %s" % (rc, e[-1000:]))
-    lines = [l for l in cases.splitlines() if l[:2] in ("D\t", "E\t", "B\t", "L\t", "T\t", "V\t", "M\t")]
+    lines = [l for l in cases.splitlines() if l[:2] in ("D\t", "E\t", "B\t", "L\t", "T\t", "V\t", "M\t", "P\t")]
     res = common.run_model(model, "\n".join(lines) + "\n")
     mism = [l for l in res if not l.startswith("OK ")]
     distinct = len(set(l.split("\t", 2)[2] for l in lines))
@@ -129,7 +131,7 @@ def run(ctx):
     ctx.cov["distinct_nontrivial"] += distinct
     ctx.notes["correspondence"] = {
         "cases": len(lines), "mismatches": len(mism), "distinct_cases": distinct,
-        "kinds": {k: sum(1 for l in lines if l.startswith(k + "\t")) for k in ("D", "E", "B", "L", "T", "V", "M")},
+        "kinds": {k: sum(1 for l in lines if l.startswith(k + "\t")) for k in ("D", "E", "B", "L", "T", "V", "M", "P")},
         "input_distribution": "D: all shape lists up to length %d over the 32-letter alphabet (C04's 29 + mdat(0/4) and an unknown box behind a 16-byte "
                               "header) + %d random longer lists, through DecodeFile and "
                               "DecodeFileSR with flags none / start-on-moof: outcome class, grouping, StartPos; E: the same lists (length >= 2) and 6 small "
@@ -143,7 +145,9 @@ def run(ctx):
                               "counts}, senc over version/flags/count/raw length, mdat, + %d random truns/sencs each with a mutated copy: fields, Size, "
                               "consumed, AccError of both decoders vs the two model decoders; V: the same for stsd and 8 sample-entry types (name "
                               "lengths 0/4/31/32/255, 0..2 children incl. lying children, boxes shorter than the 78 fixed bytes); M: every V input that decodes "
-                              "to an stsd / sample entry and 8 mdat boxes: model encoders vs Encode/EncodeSW bytes" % (exh, n, n, n, n),
+                              "to an stsd / sample entry and 8 mdat boxes: model encoders vs Encode/EncodeSW bytes; P: mfhd, tfdt (v0/v1), tfhd (all 32 "
+                              "combinations of the optional-field flags) with the same variants: fields, Size, consumed, AccError of both decoders vs "
+                              "the reader programs" % (exh, n, n, n, n),
     }
     ctx.cov["samples"] += [l[:300] for l in lines[:2]] + [l[:300] for l in lines[len(lines) // 2:len(lines) // 2 + 2]]
     ctx.log("correspondence: %d cases, %d mismatches" % (len(lines), len(mism)))
